@@ -377,6 +377,26 @@ func compWS(o *out, seed uint64, tier string) {
 			emit(&wsCase{ops: []string{a, "A:leg=1", "A:leg=0", "W:g:1,3,70000", "C", "R", "A:leg=1", "A:leg=0", "A:leg=1", "W:h:68656c6c6f", "C"}, wf: false, rdconc: 1}, "legacy-toggle-between-frames")
 		}
 	}
+	// 2h. blocks that are incompressible except for a short tail (the compressor runs out of destination
+	//     after its first, late match: the block must be stored raw, not reported as an error), whole
+	//     blocks and a last partial block, fast and HC, through Write and ReadFrom
+	for _, kind := range []int{4, 5} {
+		for i, n := range []int{65536, 65536 + 3000, 2 * 65536, 5000} {
+			for _, lvl := range []int{0, 512} {
+				a := fmt.Sprintf("A:bs=4,conc=%d,lvl=%d,bc=%d", 1+i%2, lvl, i%2)
+				emit(&wsCase{ops: []string{a, fmt.Sprintf("W:g:%d,%d,%d", kind, r.intn(1000), n), "C"}, wf: true, rdconc: 1}, "late-match-in-incompressible-block")
+				emit(&wsCase{ops: []string{a, fmt.Sprintf("RF:g:%d,%d,%d|0", kind, r.intn(1000), n), "C"}, wf: true, rdconc: 1}, "late-match-in-incompressible-block")
+			}
+		}
+	}
+	// 2g. a frame, Close, Reset, Close with nothing written (an EMPTY second frame: its content checksum is
+	//     XXH32 of the empty input whatever the hash object held before), pending bytes in the hash object
+	//     being those of a first frame whose length is not a multiple of 16
+	for _, conc := range []int{1, 2} {
+		for _, w1 := range []string{"W:h:68656c6c6f", "W:g:1,3,70001"} {
+			emit(&wsCase{ops: []string{fmt.Sprintf("A:bs=4,conc=%d,cc=1", conc), w1, "C", "R", "C", "R", "F", "C"}, wf: false, rdconc: 1}, "empty-frame-after-reset")
+		}
+	}
 	// 2e. ReadFrom (the io.Copy path) with a sink failing at every call, for good and once, modern
 	//     and legacy (no end mark: only the failing call itself can report), input not a multiple of
 	//     the block size so that the last block is written by ReadFrom's end-of-input branch
@@ -389,7 +409,7 @@ func compWS(o *out, seed uint64, tier string) {
 		}
 	}
 	// 2c. the package pools have a history: other objects failed or were abandoned just before
-	for pre := 1; pre <= 3; pre++ {
+	for pre := 1; pre <= 5; pre++ {
 		for _, conc := range []int{1, 2} {
 			// (moderate sizes: every byte also goes through the extracted models)
 			ops := []string{fmt.Sprintf("A:bs=4,conc=%d,bc=1", conc), "W:g:1,3,66000", "F", "W:g:0,8,3000", "C", "R", "RF:g:1,5,66000|0", "C"}
@@ -810,6 +830,48 @@ func compRS(o *out, seed uint64, tier string) {
 			emit(&rsCase{in: a.f, ops: ops, conc: 1}, "valid", b.data, "reuse-after-complete-frame")
 		}
 	}
+	// reuse across DIFFERENT block sizes (larger first, smaller first), the first frame consumed through
+	// WriteTo, through Read, or abandoned half-way: block buffers sized for the previous frame must go
+	for _, pr := range [][2]int{{7, 4}, {4, 7}, {6, 5}, {4, 5}, {5, 4}} {
+		for _, kd := range []int{1, 0} { // compressible / incompressible (stored blocks)
+			da, db := genData(kd, 40+pr[0], 70000), genData(kd, 50+pr[1], 150000)
+			fa := makeFrame(fopt{bs: pr[0], bc: 0, cc: 1, lvl: 0, conc: 1, leg: 0, size: -1}, da)
+			fb := makeFrame(fopt{bs: pr[1], bc: 0, cc: 1, lvl: 0, conc: 1, leg: 0, size: -1}, db)
+			rs := "RS:h:" + hx(fb)
+			for _, ops := range [][]string{{"WT", rs, "WT"}, {"RA:4096", rs, "RA:4096"}, {"R:100", rs, "WT"}, {"WT", rs, "RA:70000"}} {
+				emit(&rsCase{in: fa, ops: ops, conc: 1}, "valid", db, "reuse-across-block-sizes")
+			}
+		}
+	}
+	// reuse after a frame with DEPENDENT blocks onto an independent-block frame without checksums whose
+	// first block holds a match reaching before the start of the block: a window that survives Reset
+	// would resolve it against the previous frame's content instead of rejecting the block
+	for i := 0; i < 3*mult; i++ {
+		blocks, _ := depBlocks(r, 3, 65536)
+		first := buildFrame(false, false, true, 4, -1, blocks, false)
+		lits := r.bytes(1 + r.intn(10))
+		bad := appendSeq(nil, lits, len(lits)+1+r.intn(3000), 8)
+		bad = appendSeq(bad, r.bytes(12), 0, 0)
+		second := buildFrame(true, false, false, 4, -1, []gblock{{stored: bad, raw: false, dec: nil}}, false)
+		for _, ops := range [][]string{{"WT", "RS:h:" + hx(second), "WT"}, {"RA:4096", "RS:h:" + hx(second), "RA:100"}} {
+			emit(&rsCase{in: first, ops: ops, conc: 1}, "life", nil, "reuse-after-dependent-frame-onto-bad-offset")
+		}
+	}
+	// Size() BEFORE the first read, on headers that must be rejected (wrong checksum, undefined block-size
+	// code, not a frame): asking for the size must neither accept the header nor change what the reads report
+	{
+		good := makeFrame(fopt{bs: 4, bc: 0, cc: 1, lvl: 0, conc: 1, leg: 0, size: 300}, genData(1, 3, 300))
+		for _, mutate := range []func(f []byte){func(f []byte) { f[len("....xx12345678")] ^= 0x5A }, func(f []byte) { f[5] = 0x30 }, func(f []byte) { f[5] = 0x10 }, func(f []byte) { f[0] ^= 1 }, func(f []byte) { f[6] ^= 0xFF }} {
+			f := append([]byte{}, good...)
+			mutate(f)
+			for _, ops := range [][]string{{"S", "R:10", "S", "R:10"}, {"S", "WT", "S"}, {"S", "S", "RA:100"}} {
+				emit(&rsCase{in: f, ops: ops, conc: 1}, "mut", nil, "size-before-read-on-bad-header")
+			}
+		}
+		for _, ops := range [][]string{{"S", "R:10", "S", "RA:100", "S"}, {"S", "WT", "S"}} {
+			emit(&rsCase{in: good, ops: ops, conc: 1}, "valid", genData(1, 3, 300), "size-before-read")
+		}
+	}
 	// reuse onto a source that is NOT a frame, or a truncated one: every following call reports what a
 	// new Reader would report (the error again, not the previous session's end of stream)
 	for i := 0; i < 6*mult; i++ {
@@ -906,6 +968,17 @@ func compCR(o *out, seed uint64, tier string) {
 			}
 			o.emit("cr", c.fields()+" iout="+out, obs, true)
 			o.count("buffer-ends-at-block-end")
+		}
+	}
+	// reuse after a stream that ended EXACTLY on a block boundary, delivered by a source that returns its
+	// last bytes together with io.EOF (frag 3) or with a separate io.EOF (frag 0), read to the clean end,
+	// then Reset onto a second source: whatever the reader remembers about the first source's end must go
+	for _, n := range []int{bs, 2 * bs} {
+		for _, fr := range []int{3, 0, 2} {
+			c := &crCase{data: fmt.Sprintf("g:1,%d,%d", r.intn(500), n), opts: "bs=4,bc=0,cc=1,lvl=0", sizes: []int{4 << 20, 4 << 20, 100, 100}, frag: fr,
+				data2: fmt.Sprintf("g:%d,%d,%d", r.intn(4), r.intn(500), []int{1000, bs, 5}[r.intn(3)])}
+			o.emit("cr", c.fields()+" iout=-", iso("cr", c.fields(), 30*time.Second), true)
+			o.count("reset-after-block-multiple-stream")
 		}
 	}
 	szc := []int{0, 1, 3, 6, 7, 8, 15, 100, 5000, 70000, 300000}
